@@ -78,6 +78,12 @@ class Gen2(proggen.Gen):
             v = self.fresh("j")
             env[v] = "str"
             return ("setblock", v, [("raw", r.choice([", ", "-", " & ", ""]))], None)
+        if d > 0 and r.chance(1, 10):
+            # a string iterates over its characters (each one an unsafe one-character string), also a captured safe one
+            v = self.fresh("c")
+            env2 = dict(env)
+            env2[v] = "str"
+            return ("for", v, self.str_expr(env, 1), None, self.body(env2, d - 1, True), None, False)
         return proggen.Gen.stmt(self, env, d, in_loop)
 
 
@@ -180,6 +186,58 @@ def sweep_template(expr_tpl):
     return SWEEP_PRELUDE + "[" + expr_tpl + "]"
 
 
+
+# ---- part D: which names are auto-escaped (default_auto_escape_callback) ------------------------------------------
+XVAL = "<'\">&/"
+
+
+def fmt_mode(mode, x=XVAL):
+    if mode == 1:
+        return "".join({"<": "&lt;", ">": "&gt;", "&": "&amp;", '"': "&quot;", "'": "&#x27;", "/": "&#x2f;"}.get(c, c) for c in x)
+    if mode == 2:
+        return json.dumps(x)
+    return x
+
+
+def name_family(rng, thorough):
+    pres = ["", "a", "a/", "a.b/", "x.", "dir/sub/", "é", "a\\b", "n\u0000", ".", "..", "a/.", "index", "v1.2/feed", ".hidden"]
+    exts = ["html", "htm", "xml", "json", "json5", "js", "yaml", "yml", "txt", "HTML", "Html", "htmlx", "xhtml", "ht ml", "", "j2", "jinja", "jinja2", "html\u0000"]
+    sufs = ["", ".j2", ".jinja", ".jinja2", ".j2.jinja", ".jinja.j2", ".", ".J2", "\u0000", " ", ".j2 "]
+    names = []
+    for p_ in pres:
+        for e in exts:
+            for joiner in (".", ""):
+                for su in sufs:
+                    names.append(p_ + joiner + e + su)
+    alphabet = [".", ".", "/", "h", "t", "m", "l", "x", "j", "2", "html", "xml", ".j2", ".jinja", "s", "\\"]
+    for _ in range(20000 if thorough else 1500):
+        names.append("".join(rng.choice(alphabet) for _ in range(1 + rng.below(7))))
+    seen, out = set(), []
+    for n in names:
+        if n not in seen and not n.startswith("zz_"):
+            seen.add(n); out.append(n)
+    return out
+
+
+def name_cases(name, m):
+    """(label, templates, main, ctx, governing-mode description, expected output) for template `name` of model mode m"""
+    om, oname = (0, "zz_other.txt") if m == 1 else (1, "zz_other.html")
+    f, fo = fmt_mode(m), fmt_mode(om)
+    leaf = "[{{ x }}]"
+    child = "{% extends base %}{% block b %}[{{ x }}|{{ super() }}]{% endblock %}"
+    base = "<{{ x }}{% block b %}({{ x }}){% endblock %}>"
+    lib = "{% macro m(v) %}[{{ v }}]{% endmacro %}"
+    C = []
+    C.append(("direct", {name: leaf}, name, {}, m, "[" + f + "]"))
+    C.append(("included from a template of another mode", {oname: "{{ x }}|{% include inc %}|{{ x }}", name: leaf}, oname, {"inc": name}, m, fo + "|[" + f + "]|" + fo))
+    C.append(("includes a template of another mode", {name: "{{ x }}|{% include inc %}|{{ x }}", oname: leaf}, name, {"inc": oname}, m, f + "|[" + fo + "]|" + f))
+    C.append(("most derived template of an extends chain", {name: child, oname: base}, name, {"base": oname}, m, "<" + f + "[" + f + "|(" + f + ")]>"))
+    C.append(("base of an extends chain rendered through a child of another mode", {oname: child, name: base}, oname, {"base": name}, om, "<" + fo + "[" + fo + "|(" + fo + ")]>"))
+    C.append(("macro imported into a template of another mode", {oname: "{% from lib import m %}{{ m(x) }}", name: lib}, oname, {"lib": name}, om, "[" + fo + "]"))
+    C.append(("imports a macro from a template of another mode", {name: "{% from lib import m %}{{ m(x) }}", oname: lib}, name, {"lib": oname}, m, "[" + f + "]"))
+    return C
+
+
 def main():
     chk = Check("C02", "proof")
     chk.cov["trusted_base"] = TRUSTED_COMMON + [
@@ -213,6 +271,10 @@ def main():
                 a = run_prog([req(rp["templates"], rp["main"], rp["context"], True), req({"main.html": rp["body"]}, "main.html", rp["context"], True)], release=rel)
                 if "ok" in a[1].get("render", {}) and a[0].get("render") != a[1].get("render"):
                     viol.append(("printing a captured rendering does not reproduce it byte for byte (%s)" % rp.get("via"), rp))
+            elif kind == "names":
+                r = run_prog([req(rp["templates"], rp["main"], rp["context"])], release=rel)[0].get("render", {})
+                if "ok" in r and r["ok"] != rp["expected"]:
+                    viol.append((rp.get("what", "template rendered under another auto-escape mode than its name gives it"), rp))
             else:
                 r = run_prog([req(rp["templates"], rp["main"], rp["context"])], release=rel)[0].get("render", {})
                 if "ok" in r and has_meta(r["ok"]):
@@ -369,6 +431,62 @@ def main():
     samples.append({"part": "B", "body": rt_meta[0][1], "context": rt_meta[0][2], "wrappers": [w[0] for w in wrappers("BODY")]})
 
     log('[C02] part B done %.1fs' % (time.time() - chk.t0))
+    # ---------------- part D: name -> mode ----------------
+    names = name_family(rng, chk.thorough)
+    modes = run_model("C02", "c02-mode", [[len(n)] + [ord(c) for c in n] for n in names])
+    dreqs, dmeta = [], []
+    if not chk.thorough:
+        # quick tier: every name the model escapes, one in six of the others
+        keep, k = [], 0
+        for n, mo in zip(names, modes):
+            if mo[:1] != [0]:
+                keep.append((n, mo))
+            else:
+                k += 1
+                if k % 6 == 0:
+                    keep.append((n, mo))
+        names, modes = [x[0] for x in keep], [x[1] for x in keep]
+    for n, mo in zip(names, modes):
+        if mo[:1] not in ([0], [1], [2]):
+            nfi.append(("the name model could not decode a name", {"theorem_or_correspondence": "C02/Runner.v c02-mode", "name": n}))
+            continue
+        hist["D_model_mode_%s" % ["none", "html", "json"][mo[0]]] += 1
+        for lab, t, mainn, cx, gov, want in name_cases(n, mo[0]):
+            c2 = {"x": XVAL}; c2.update(cx)
+            dreqs.append(req(t, mainn, c2)); dmeta.append((n, mo[0], lab, t, mainn, c2, gov, want))
+    name_bad = []
+    for rel in (False, True):
+        douts = run_prog(dreqs, release=rel)
+        for (n, mo, lab, t, mainn, c2, gov, want), r in zip(dmeta, douts):
+            evaluations += 1
+            rr = r.get("render", {})
+            if "ok" in rr:
+                if not rel:
+                    hist["D_rendered"] += 1
+                    nontriv.add(("D", n, lab))
+                if rr["ok"] != want:
+                    name_bad.append((n, mo, lab, t, mainn, c2, gov, want, rr["ok"], rel))
+            elif "err" in rr:
+                if not rel:
+                    hist["D_error"] += 1
+            else:
+                crashes_a.append({"template": t[mainn], "name": n, "engine": json.dumps(r)[:160]})
+    seen_n = set()
+    for n, mo, lab, t, mainn, c2, gov, want, got, rel in name_bad:
+        if len(seen_n) >= 4 or (n, lab) in seen_n:
+            continue
+        seen_n.add((n, lab))
+        rp = {"kind": "names", "name": n, "model_mode": ["none", "html", "json"][mo], "scenario": lab, "templates": t, "main": mainn, "context": c2,
+              "expected": want, "engine": got, "profile": "release" if rel else "debug"}
+        if gov == 1 and has_meta(got):
+            rp["what"] = "a template whose name ends in an HTML extension is rendered without escaping (%s): %r" % (lab, n)
+            viol.append((rp["what"], rp))
+        else:
+            rp["what"] = "the engine renders %r under another auto-escape mode than the documented name table gives (%s)" % (n, lab)
+            nfi.append((rp["what"], dict(rp, theorem_or_correspondence="C02/Names.v default_mode vs default_auto_escape_callback")))
+    samples.append({"part": "D", "names": names[:12] + names[len(names) // 2: len(names) // 2 + 6], "scenarios": [c[0] for c in name_cases("x.html", 1)]})
+    log('[C02] part D done %.1fs' % (time.time() - chk.t0))
+
     # ---------------- part C: filter sweep ----------------
     names = filter_names()
     singles = sweep_cases(names, rng, chk.thorough)
@@ -406,7 +524,7 @@ def main():
         for g in names:
             for a in pair_args:
                 pairs.append(((f1, g), "{{ %s|%s%s }}" % (inner, g, a)))
-    cap = 400000 if chk.thorough else 60000
+    cap = 400000 if chk.thorough else 40000
     if len(pairs) > cap:
         step = len(pairs) / float(cap)
         pairs = [pairs[int(i * step)] for i in range(cap)]
@@ -450,7 +568,8 @@ def main():
     chk.cov["distinct_nontrivial"] = len(nontriv)
     chk.cov["rule"] = ("A: typed random programs (depth 2-4, metacharacter string literals) x contexts of metacharacter strings under 5 auto-escaped template names, engine (debug+release) vs "
                        "extracted interpreter with esc=true, plus the no-raw-metacharacter oracle on the engine output; A': same oracle, wild contexts (metacharacter strings/lists in every variable, "
-                       "html includes); B: generated bodies printed through 15 capture routes vs direct; C: every registered filter x 11 operands x 20 argument shapes, then pairs. "
+                       "html includes); B: generated bodies printed through 15 capture routes vs direct; C: every registered filter x 11 operands x 20 argument shapes, then pairs; D: a family of template names (prefix x extension x ignored-suffix shapes incl. empty stems, upper case, trailing dots, NUL, backslash, non-ASCII, plus random names) "
+                       "rendered directly and through include / extends / import from a template of another mode, compared with the proved name->mode model. "
                        "non-trivial = distinct case that renders without error and (A, A') whose output contains an escaped metacharacter entity, (B) whose body output contains an entity, (C) every accepted filter invocation")
     chk.cov["samples"] = samples
     chk.cov["distribution"] = dict(hist)
